@@ -139,31 +139,6 @@ func (t *memoryThrottler) getEntries(client string, action string) []throttleEnt
 	return entries
 }
 
-func (t *memoryThrottler) setEntries(client string, action string, entries []throttleEntry) {
-	t.mu.Lock()
-	defer t.mu.Unlock()
-
-	toThrottle := getThrottleIp(client)
-	actions := t.clients[toThrottle]
-	if len(actions) == 0 {
-		if len(entries) == 0 {
-			return
-		}
-
-		actions = make(map[string][]throttleEntry)
-		t.clients[toThrottle] = actions
-	}
-
-	if len(entries) > 0 {
-		actions[action] = entries
-	} else {
-		delete(actions, action)
-		if len(actions) == 0 {
-			delete(t.clients, toThrottle)
-		}
-	}
-}
-
 func (t *memoryThrottler) addEntry(client string, action string, entry throttleEntry) int {
 	t.mu.Lock()
 	defer t.mu.Unlock()
@@ -270,7 +245,14 @@ func (t *memoryThrottler) CheckBruteforce(ctx context.Context, client string, ac
 		t.throttle(ctx, client, action, now)
 	}
 
-	entries := t.getEntries(client, action)
+	// Check and remove old entries while holding the lock, so entries added
+	// concurrently by "throttle" are not overwritten with a stale list.
+	t.mu.Lock()
+	defer t.mu.Unlock()
+
+	toThrottle := getThrottleIp(client)
+	actions := t.clients[toThrottle]
+	entries := actions[action]
 	l := len(entries)
 	if l == 0 {
 		return doThrottle, nil
@@ -288,10 +270,12 @@ func (t *memoryThrottler) CheckBruteforce(ctx context.Context, client string, ac
 	// Remove old entries.
 	newEntries := t.filterEntries(entries, now)
 	if newl := len(newEntries); newl == 0 {
-		t.setEntries(client, action, nil)
-		return doThrottle, nil
+		delete(actions, action)
+		if len(actions) == 0 {
+			delete(t.clients, toThrottle)
+		}
 	} else if newl != l {
-		t.setEntries(client, action, newEntries)
+		actions[action] = newEntries
 	}
 
 	return doThrottle, nil
